@@ -256,6 +256,13 @@ class ProgGen:
                 self.vars[p] = "int"
             self.in_func += 1
             body = self.stmts(r.randint(1, 2), 2)
+            if r.random() < 0.3:
+                # definitions nested inside a body: a function in a function, a computed value in a function, both
+                inner = self.fresh("in")
+                nested = r.choice([f"func {inner}(qa) {{ qa * 2 }}", f"func {inner}(qa) {{ func {inner}b(qb) {{ qb + 1 }}; {inner}b(qa) }}", f"&{inner} = 1 + {self.e_int(2)}",
+                                   f"&{inner} = 2; func {inner}f() {{ {inner} + 1 }}"])
+                use = f"{inner}(3)" if nested.startswith("func") else (f"{inner}f()" if "f()" in nested else inner)
+                body = f"{r.choice(['x9 = 1 + 2; ', ''])}{nested}; {body}; {use}"
             if r.random() < 0.5:
                 body += f"; return {self.e_int(2)}"
             else:
